@@ -93,6 +93,14 @@ def cases(tier, seed):
         if key not in seen:
             seen.add(key)
             nm.append({'id': '3d:near:floor:%s:%s' % (r, 'x'.join(map(str, bs))), 'dim': '3d', 'rate_arg': r, 'bs_arg': bs, 'valid': None, 'spelling': 'near-miss', 'cost': 1})
+    # deterministic family: bit rates above 32 (reached with bits_per_voxel=-1 and a block of fewer than 1024 voxels, or given outright):
+    # whatever the writer does with them, its own reader must agree
+    for r, bs in [(-1, [4, 4, 32]), (-1, [8, 8, 8]), (-1, [4, 4, 4]), (64, [4, 4, -1]), (-1, [16, 4, 4]), (-1, [1, 16, 16]), (-1, [1, 4, 4]), (64, [1, 16, -1]), (128, [1, 4, -1])]:
+        key = (bs[0] == 1, str(r), tuple(bs))
+        if key not in seen:
+            seen.add(key)
+            nm.append({'id': '%s:near:rate>32:%s:%s' % ('2d' if bs[0] == 1 else '3d', r, 'x'.join(map(str, bs))), 'dim': '2d' if bs[0] == 1 else '3d', 'rate_arg': r, 'bs_arg': bs,
+                       'valid': None, 'spelling': 'near-miss', 'cost': 1})
     n += len(nm)
     while len(nm) < n:
         is2d = rng.random() < 0.3
@@ -285,7 +293,11 @@ def run_case(case, ctx):
                     import random as _random
                     from .. import reads
                     rng_ = _random.Random(case['id'])
-                    b_, k_ = reads.check_ops(r, reads.ops_3d(D2.shape, eff[1], rng_, 14), lambda op: reads.expected_3d(img2, op), tag='3d:accepted-setting-unfaithful-valid:')
+                    ops_ = reads.ops_3d(D2.shape, eff[1], rng_, 14)
+                    if D2.shape[2] > eff[1][2]:
+                        # windows exactly one sample block long, several trace columns wide
+                        ops_ += [('read_subvolume', (0, D2.shape[0], 0, D2.shape[1], 0, eff[1][2])), ('read_subvolume', (1, D2.shape[0], 1, D2.shape[1], 0, eff[1][2]))]
+                    b_, k_ = reads.check_ops(r, ops_, lambda op: reads.expected_3d(img2, op), tag='3d:accepted-setting-unfaithful-valid:')
                     paths += k_
                     for x_ in b_[:2]:
                         outcome = 'unfaithful'
